@@ -183,39 +183,52 @@ def identify_centres(vec, kind):
 def judge_extent(first, count, lo_edge, hi_edge):
     """Block cells first .. first+count-1 against the rectangle edges lo_edge <= hi_edge given
     in cell units from the origin of that axis (exact Fractions).  The block must cover
-    [lo_edge, hi_edge] and extend beyond it by less than one cell on each side; BAND_CELLS of
-    slack either way.  Returns list of complaints."""
+    [lo_edge, hi_edge] and extend beyond it by less than one cell on each side.  An edge that
+    lies exactly on a grid line (integral position: exactly representable input, for which
+    the quotient is exact in double as well) is decided strictly; any other edge gets
+    BAND_CELLS of slack either way.  Returns list of complaints."""
     out = []
     blk_lo = F(first)
     blk_hi = F(first + count)
     ext_lo = lo_edge - blk_lo          # how far the block starts before the rectangle
     ext_hi = blk_hi - hi_edge
-    if ext_lo < -BAND_CELLS:
+    band_lo = 0 if lo_edge.denominator == 1 else BAND_CELLS
+    band_hi = 0 if hi_edge.denominator == 1 else BAND_CELLS
+    if ext_lo < -band_lo:
         out.append(("not-covered-low", float(-ext_lo)))
-    if ext_lo >= 1 + BAND_CELLS:
+    if ext_lo >= 1 + band_lo:
         out.append(("overshoot-low", float(ext_lo)))
-    if ext_hi < -BAND_CELLS:
+    if ext_hi < -band_hi:
         out.append(("not-covered-high", float(-ext_hi)))
-    if ext_hi >= 1 + BAND_CELLS:
+    if ext_hi >= 1 + band_hi:
         out.append(("overshoot-high", float(ext_hi)))
     return out
 
 
+def _axis_overlap(lo, hi, tlo, thi):
+    """'yes' / 'no' / 'maybe' for the open overlap of (lo, hi) with the tile side (tlo, thi).
+    Exact touching (overlap of length 0) is a strict 'no': tile borders are integers, which
+    pass unchanged through the implementation's modulo; an overlap or gap shorter than the
+    band - an edge near but not on the border - is a don't-care."""
+    length = min(hi, thi) - max(lo, tlo)
+    if length >= BAND_DEG:
+        return "yes"
+    if length == 0 or length <= -BAND_DEG:
+        return "no"
+    return "maybe"
+
+
 def expected_tiles(rect):
     """(must, may) sets of tile names: tiles whose open area intersects the rectangle's
-    interior; an edge within BAND_DEG of a tile border makes the neighbour a don't-care."""
+    interior."""
     lat_min, lon_min, lat_max, lon_max = [fr(float(v)) for v in rect]
     must, may = set(), set()
     for name, tla0, tlo0, tla1, tlo1 in TILES:
-        def inter(shrink):
-            a0 = max(lat_min + shrink, tla0)
-            a1 = min(lat_max - shrink, tla1)
-            o0 = max(lon_min + shrink, tlo0)
-            o1 = min(lon_max - shrink, tlo1)
-            return a0 < a1 and o0 < o1
-        if inter(BAND_DEG):
+        a = _axis_overlap(lat_min, lat_max, tla0, tla1)
+        o = _axis_overlap(lon_min, lon_max, tlo0, tlo1)
+        if a == "yes" and o == "yes":
             must.add(name)
-        elif inter(-BAND_DEG):
+        elif a != "no" and o != "no":
             may.add(name)
     return must, may
 
